@@ -416,9 +416,104 @@ func checkHop(x *explore.X, w *world.World, want route, kind int, hop *world.Pee
 	}
 }
 
+// ---- routing is a function of the configuration and the request alone: sequences on one proxy ----------------------
+
+const historyPAC = `function FindProxyForURL(url, host) {
+  if (url.indexOf(":8443") > 0) return "PROXY up.test:8080";
+  if (url.indexOf(":8080") > 0) return "PROXY b.test:2";
+  if (url.indexOf(":443") > 0) return "DIRECT";
+  if (url.indexOf("/direct") > 0) return "DIRECT";
+  if (host == "other.test") return "DIRECT";
+  return "PROXY up.test:8080";
+}`
+
+var historyRequests = []struct {
+	name, head, dial string
+	reply            string // what the contacted party answers ("" = the proxy answers the client itself)
+}{
+	{"GET origin.test/x", "GET http://origin.test/x HTTP/1.1\r\nHost: origin.test\r\n\r\n", "up.test:8080", "HTTP/1.1 200 OK\r\nContent-Length: 0\r\nConnection: close\r\n\r\n"},
+	{"GET origin.test/direct", "GET http://origin.test/direct HTTP/1.1\r\nHost: origin.test\r\n\r\n", "origin.test:80", "HTTP/1.1 200 OK\r\nContent-Length: 0\r\nConnection: close\r\n\r\n"},
+	{"GET origin.test:8080/x", "GET http://origin.test:8080/x HTTP/1.1\r\nHost: origin.test:8080\r\n\r\n", "b.test:2", "HTTP/1.1 200 OK\r\nContent-Length: 0\r\nConnection: close\r\n\r\n"},
+	{"CONNECT origin.test:443", "CONNECT origin.test:443 HTTP/1.1\r\nHost: origin.test:443\r\n\r\n", "origin.test:443", ""},
+	{"CONNECT origin.test:8443", "CONNECT origin.test:8443 HTTP/1.1\r\nHost: origin.test:8443\r\n\r\n", "up.test:8080", "HTTP/1.1 200 OK\r\n\r\n"},
+	{"GET other.test/x", "GET http://other.test/x HTTP/1.1\r\nHost: other.test\r\n\r\n", "other.test:80", "HTTP/1.1 200 OK\r\nContent-Length: 0\r\nConnection: close\r\n\r\n"},
+}
+
+// historyScenario: one proxy whose PAC script answers by URL (port, path) and host; every sequence of n
+// requests; each request must be routed by its own URL whatever was requested before.
+func historyScenario(x *explore.X, n int) {
+	var seq []int
+	for i := 0; i < n; i++ {
+		seq = append(seq, x.ChooseFree(fmt.Sprintf("request-%d", i), len(historyRequests)))
+	}
+	w, err := world.Start(world.Options{PAC: historyPAC})
+	if err != nil {
+		x.Failf("harness/start", "%v", err)
+		return
+	}
+	servers := map[string]*world.Server{}
+	for _, a := range []string{"up.test:8080", "origin.test:80", "origin.test:8080", "origin.test:443", "origin.test:8443", "b.test:2", "other.test:80"} {
+		sv, err := w.Server(a)
+		if err != nil {
+			x.Failf("harness/listen", "%s: %v", a, err)
+			return
+		}
+		servers[a] = sv
+	}
+	var names, out []string
+	for _, k := range seq {
+		rq := historyRequests[k]
+		names = append(names, rq.name)
+		before := len(w.Net.Dials())
+		cl, err := w.Client()
+		if err != nil {
+			x.Failf("harness/client", "%v", err)
+			return
+		}
+		cl.Send([]byte(rq.head))
+		world.Settle(100 * time.Millisecond)
+		ds := w.Net.Dials()[before:]
+		x.Check()
+		if len(ds) != 1 || ds[0].Addr != rq.dial || ds[0].Outcome != "connected" {
+			x.Failf("wrong-party-contacted/after-earlier-requests", "request %q after %v: want exactly one connection, to %s; dials: %v", rq.name, names[:len(names)-1], rq.dial, ds)
+			return
+		}
+		hop := servers[rq.dial].Accept()
+		if hop == nil {
+			x.Failf("harness/hop", "no connection accepted at %s", rq.dial)
+			return
+		}
+		if rq.reply != "" {
+			hop.Send([]byte(rq.reply))
+		}
+		world.Settle(100 * time.Millisecond)
+		rs := httpwire.ParseResponses(cl.Recv(), []string{strings.SplitN(rq.head, " ", 2)[0]}, false)
+		if len(rs.Msgs) != 1 || rs.Msgs[0].Status != 200 {
+			x.Failf("request-not-served/after-earlier-requests", "request %q after %v: client got %q", rq.name, names[:len(names)-1], world.Clip(cl.Recv()))
+			return
+		}
+		out = append(out, rq.dial)
+		cl.Close()
+		hop.Close()
+		world.Settle(100 * time.Millisecond)
+	}
+	x.Outcome(strings.Join(out, ","))
+	if err := w.Stop(); err != nil {
+		x.Failf("shutdown", "%v", err)
+	}
+	for _, sv := range servers {
+		for p := sv.Accept(); p != nil; p = sv.Accept() {
+			p.Close()
+		}
+	}
+	if l := world.Leaks(); l != "" {
+		x.Failf("goroutine-leak", "%s", l)
+	}
+}
+
 func TestC05(t *testing.T) {
 	s := explore.NewSuite(t, "C05", "exploration",
-		"configuration = upstream(21: none, static http/https/socks5, PAC scripts returning each result string of the alphabet incl. errors) x direct-domains(4) x proxy-localhost(3) x connect-to rule list(8) x target(6: names, explicit port, localhost, IPv6 literal, loopback IP) x kind(plain HTTP, CONNECT, inside MITM); deviation-bounded exploration (D=3 quick, 4 thorough) plus the full product upstream x direct-domains x localhost mode x target x kind (thorough) and connect-to x upstream x target x kind (both tiers); 99 endpoints listen on the in-memory network, the reference expectRoute names the one that must be dialled and checkHop verifies what it received first (request line form, CONNECT authority, SOCKS5 target, TLS hello); every other endpoint must stay untouched; non-trivial = route compared")
+		"configuration = upstream(21: none, static http/https/socks5, PAC scripts returning each result string of the alphabet incl. errors) x direct-domains(4) x proxy-localhost(3) x connect-to rule list(8) x target(6: names, explicit port, localhost, IPv6 literal, loopback IP) x kind(plain HTTP, CONNECT, inside MITM); deviation-bounded exploration (D=3 quick, 4 thorough) plus the full product upstream x direct-domains x localhost mode x target x kind (thorough) and connect-to x upstream x target x kind (both tiers); 99 endpoints listen on the in-memory network, the reference expectRoute names the one that must be dialled and checkHop verifies what it received first (request line form, CONNECT authority, SOCKS5 target, TLS hello); every other endpoint must stay untouched; plus (history) ONE proxy with a PAC script that answers by URL (port, path) and host, and EVERY sequence of 2 (quick) / 4 (thorough) requests out of 6 (plain and CONNECT, same host with different ports/paths, another host): each request must be routed by its own URL whatever was requested before; non-trivial = route compared")
 	s.Assume = []string{"simnet owns every dial of the proxy", "PAC scripts are evaluated by the real pac package (goja)", "the address dialled is observed after the real DialRedirectFunc (connect-to) ran inside forwarder.Dialer"}
 	s.Add(explore.Scenario{Name: "bounded", Remote: true, MaxDev: map[string]int{"quick": 3, "thorough": 4},
 		Run: func(x *explore.X) { world.Run(t, x, func() { scenario(x, 0) }) }})
@@ -426,5 +521,9 @@ func TestC05(t *testing.T) {
 		Run: func(x *explore.X) { world.Run(t, x, func() { scenario(x, 1) }) }})
 	s.Add(explore.Scenario{Name: "product-connect-to", Remote: true, MaxDev: map[string]int{"quick": 0, "thorough": 0},
 		Run: func(x *explore.X) { world.Run(t, x, func() { scenario(x, 3) }) }})
+	s.Add(explore.Scenario{Name: "history-quick", Remote: true, Tiers: []string{"quick"},
+		Run: func(x *explore.X) { world.Run(t, x, func() { historyScenario(x, 2) }) }})
+	s.Add(explore.Scenario{Name: "history-thorough", Remote: true, Tiers: []string{"thorough"},
+		Run: func(x *explore.X) { world.Run(t, x, func() { historyScenario(x, 4) }) }})
 	s.Main()
 }
